@@ -1,5 +1,6 @@
 """Builds real lena objects from a C13 tree specification (see c13_model) and observes them."""
 import copy
+import json
 import os
 
 import lena.core
@@ -7,7 +8,12 @@ import lena.flow
 import lena.meta
 import lena.output
 
+from mc.ref import c13_model as M
+
 TEMPLATE = {"M": "m_{{%s}}", "W": "w_{{%s}}", "W0": "{{%s}}", "C": "c%d_{{%s}}.pkl"}
+# second field of every MakeFilename: one key of the static context and one that only a value brings
+M_DIRNAME = "d_{{%s}}-{{rt}}"
+_M_PROBES, _U_PROBES = json.dumps(M.M_PROBES), json.dumps(M.U_PROBES)
 
 
 def fields(key):
@@ -81,7 +87,8 @@ def _leaf(spec, path, b):
     elif kind == "U":
         el = lena.meta.UpdateContextFromStatic()
     elif kind == "M":
-        el = lena.output.MakeFilename(TEMPLATE["M"] % fields(spec[1]))
+        el = lena.output.MakeFilename(filename=TEMPLATE["M"] % fields(spec[1]),
+                                      dirname=M_DIRNAME % spec[1].split("+")[0])
     elif kind in ("W", "W0"):
         el = lena.output.Write(TEMPLATE[kind] % fields(spec[1]), verbose=False)
     elif kind == "C":
@@ -147,19 +154,33 @@ def _norm_cache_name(name, uid):
 
 def observe_leaf(spec, path, b):
     """What the consumer at *path* derived from the static context it was given.
-    M/W/C: the derived name, or None when the name still is the unformatted template."""
+    W/C: the derived name, or None when the name still is the unformatted template.
+    U: the contexts of the values of M.U_PROBES after they went through the element as one flow.
+    M: for the values of M.M_PROBES, given one after the other to the one element, [file name or None,
+    directory name or None, the rest of the value's context]; everything is looked at after the last
+    value was processed."""
     kind = spec[0]
     el = b.objs[path]
     if kind == "St":
         return copy.deepcopy(el.context)
     if kind == "U":
-        out = list(el.run(iter([(0, {})])))
-        return copy.deepcopy(out[0][1])
+        # fresh values for every observation, looked at after the whole flow was produced
+        out = list(el.run(iter(list(enumerate(json.loads(_U_PROBES))))))
+        return [copy.deepcopy(val[1]) for val in out]
     if kind == "M":
-        res = el((0, {}))
-        if isinstance(res, tuple) and isinstance(res[1], dict):
-            return res[1].get("output", {}).get("filename")
-        return None
+        # fresh values again; nobody else ever holds them, so no snapshots are needed
+        results = [el(value) for value in enumerate(json.loads(_M_PROBES))]
+        obs = []
+        for res in results:
+            if isinstance(res, tuple) and len(res) == 2 and isinstance(res[1], dict):
+                ctx = dict(res[1])
+                out = ctx.pop("output", None)
+                if not isinstance(out, dict):
+                    out = {}
+                obs.append([out.get("filename"), out.get("dirname"), ctx])
+            else:
+                obs.append([None, None, None])
+        return obs
     if kind in ("W", "W0"):
         name = el.output_directory
         return None if name == TEMPLATE[kind] % fields(spec[1]) else name
